@@ -26,7 +26,7 @@ CONSTANTS
   MaxPings = 0
   Scenarios = {}
   FixEarly = FALSE
-  FixStall = FALSE
+  FixStall = TRUE
   FixLatePut = FALSE
   Diag = %s
 `
@@ -34,6 +34,9 @@ CONSTANTS
 // stable keys of the violations this check can report
 const (
 	keyDoneLostEarly = "done-lost:queued-during-negotiation-then-handshake-aborted"
+	// fixed in /repo (7c169cbd): the specification of the current tree (FixStall = TRUE)
+	// no longer has this behaviour, so a recurrence is rejected by TracePeer and
+	// reported as "leak:not-a-behaviour-of-the-spec"
 	keyLeakStall     = "leak:stallhandler-exits-after-first-quit-channel"
 	keyLeakLatePut   = "leak:blocking-put-after-queuehandler-drain"
 )
@@ -79,7 +82,10 @@ func (m mcRun) cfg() string {
 	var sb strings.Builder
 	fmt.Fprintf(&sb, "SPECIFICATION Spec\nCONSTANTS\n  Senders <- MCSenders\n  Cap = 2\n  Timers = %s\n  MaxPings = %d\n  Scenarios <- %s\n",
 		tlaBool(m.timers), m.pings, m.scenarios)
-	fmt.Fprintf(&sb, "  FixEarly = %s\n  FixStall = %s\n  FixLatePut = %s\n", tlaBool(m.fix), tlaBool(m.fix), tlaBool(m.fix))
+	// FixStall is part of the current tree (repaired in /repo by 7c169cbd "fix: peer:
+	// stall handler waits for both the input and the output handler"); the other
+	// two repairs are only switched on for the "repaired" configuration.
+	fmt.Fprintf(&sb, "  FixEarly = %s\n  FixStall = TRUE\n  FixLatePut = %s\n", tlaBool(m.fix), tlaBool(m.fix))
 	sb.WriteString("INVARIANTS\n")
 	for _, inv := range safetyInvs {
 		if m.fix && inv == "QueuedBeforeDisconnectSignalled" {
